@@ -554,6 +554,14 @@ AiAdopt(g, cwl, cini, cnotes, fired) ==
              /\ (Debug /\ onot # cnotes) => PrintT(<<"DRIFTDETAIL", l, ToJson([field |-> "notes", computed |-> cnotes, observed |-> onot])>>)
 AiSame(g) == AiAdopt(g, wl, ini, notes, {})
 
+\* the previous checkpoint-or-commit of the history is an AI checkpoint of the same session
+SplitAi(rec) ==
+  LET prior == SelectSeq(hist, LAMBDA r : r.a \in {"Ckpt", "Commit", "Amend"})
+  IN  /\ Len(prior) > 0
+      /\ prior[Len(prior)].a = "Ckpt"
+      /\ prior[Len(prior)].kind = "ai"
+      /\ prior[Len(prior)].who = rec.who
+
 \* bookkeeping common to every step; in trace mode the property clauses are evaluated on the NEXT state
 Step2(rec, extra) ==
   /\ nop' = IF Gen /\ rec.a \in {"ReadOnly", "CkptRepeat"}
@@ -562,6 +570,9 @@ Step2(rec, extra) ==
             THEN Append(nop, "human-ckpt")       \* a pre-edit / redundant human checkpoint (C14)
             ELSE IF Gen /\ rec.a \in {"CherryPickR", "CherryPickManyR", "RebaseR"}
             THEN Append(nop, rec.how)            \* how a conflict episode was concluded does not show in the state
+            ELSE IF Gen /\ "split" \in Alphabet /\ rec.a = "Ckpt" /\ rec.kind = "ai" /\ SplitAi(rec)
+            THEN Append(nop, "split-ai")         \* one agent edit reported in several checkpoints of one session (C14):
+                                                 \* the repositories end up as after a single checkpoint, the schedule differs
             ELSE nop
   /\ hist' = IF Gen THEN Append(hist, rec) ELSE hist
   /\ l' = l + 1
